@@ -372,15 +372,18 @@ class Tensor:
         # (init gradients for those who are going to need it)
         ordered_nodes = []
         visited_nodes = set()
-        def visit_node(node):
-            if node not in visited_nodes:
+        stack = [(self, False)]
+        while stack:
+            node, expanded = stack.pop()
+            if expanded:
+                ordered_nodes.append(node)
+            elif node not in visited_nodes:
                 visited_nodes.add(node)
-                for child in node._children:
+                stack.append((node, True))
+                for child in reversed(node._children):
                     if child.requires_grad and child._grad is None:
                         child.zero_()
-                    visit_node(child)
-                ordered_nodes.append(node)
-        visit_node(self)
+                    stack.append((child, False))
 
         # Go one tensor at a time and apply the chain rule to get its gradient
         self.grad = grad
